@@ -33,8 +33,11 @@ vars == <<tid, l, vol, comp, hn, wl, live, cok, robv, cfg>>
 
 HdrT0(tr) == [dev |-> tr.dev, unitc |-> tr.unitc, millis |-> tr.millis, k |-> tr.k, wlmax |-> tr.wl.maxv, wlmaxc |-> tr.wl.maxc,
              autosplit |-> tr.wl.autosplit, diti |-> tr.wl.diti, lw |-> tr.lw]
-CfgOf(tr) == [maxv |-> tr.wl.maxv, maxc |-> tr.wl.maxc, autosplit |-> tr.wl.autosplit]
-HdrT(tr) == [HdrT0(tr) EXCEPT !.wlmax = cfg.maxv, !.wlmaxc = cfg.maxc, !.autosplit = cfg.autosplit]
+\* lim: the public volume limits <<min_volume, max_volume>> of every labware (they are plain attributes as well)
+CfgOf(tr) == [maxv |-> tr.wl.maxv, maxc |-> tr.wl.maxc, autosplit |-> tr.wl.autosplit,
+              lim |-> [k \in 1..Len(tr.lw) |-> <<tr.lw[k].minv, tr.lw[k].maxv>>]]
+HdrT(tr) == [HdrT0(tr) EXCEPT !.wlmax = cfg.maxv, !.wlmaxc = cfg.maxc, !.autosplit = cfg.autosplit,
+                              !.lw = [k \in 1..Len(tr.lw) |-> [tr.lw[k] EXCEPT !.minv = cfg.lim[k][1], !.maxv = cfg.lim[k][2]]]]
 
 EmptyComp(tr) == [k \in 1..Len(tr.lw) |-> [i \in 1..Len(tr.lw[k].init.vol) |-> {}]]
 \* compositions handed to the robot / reference: only while they are tracked exactly
@@ -487,6 +490,8 @@ JudgeEvo(tr, T, ev) ==
     Cl("C13.reject", ~expressible /\ wellsok /\ shaped, ~ok /\ cmds = <<>>),
     Cl("C13.rejectshape", wellsok /\ ~shaped /\ tipsok, ~ok /\ cmds = <<>>),
     Cl("C13.tracking", ok /\ feasible, post.vol[k] = (IF isAsp THEN rr.vol ELSE ra.vol)),
+    \* C04 for the script commands: every real well changes by exactly what was asked for (not by the rounded command text)
+    Cl("C04.evo", ok /\ feasible, post.vol[k] = (IF isAsp THEN rr.vol ELSE ra.vol)),
     Cl("C13.onecommand", ok, Len(cmds) = 1 /\ Len(Body(ev.recs)) = 1 /\ cmds[1].t = (IF isAsp THEN "BA" ELSE "BD")),
     Cl("C13.wellformed", ok /\ Len(cmds) = 1, c.ok /\ c.nargs = 20 /\ c.tail = <<0, 0, 0, 0>> /\ c.spacing = 1 /\ c.opt = 0),
     Cl("C13.delta", ok /\ Len(cmds) = 1 /\ F.robot, rb.err = "" /\ rb.vol = post.vol),
@@ -494,7 +499,7 @@ JudgeEvo(tr, T, ev) ==
        c.lc = a.lc.s /\ c.arm = a.arm.v /\ c.grid = a.grid.v /\ c.site = a.site.v - 1),
     Cl("C10.evomask", ok /\ Len(cmds) = 1 /\ tipsok, c.mask = MaskOfSet(Range(tn))),
     Cl("C10.evoslots", ok /\ Len(cmds) = 1 /\ tipsok /\ shaped,
-       /\ \A i \in 1..n : c.vols[tn[i]] = vs[i] * T.unitc
+       /\ \A i \in 1..n : c.vols[tn[i]] = RecCents(T, vs[i])
        /\ \A t \in (1..8) \ Range(tn) : c.vols[t] = 0),
     Cl("C03.evostep", Len(cmds) >= 1, \A t \in 1..8 : c.vols[t] <= T.wlmaxc),
     Cl("C09.comment", ok /\ a.labelok, CommentTexts(ev.recs) = (IF a.label.h THEN CommentRecords(a.label.lines) ELSE <<>>)),
@@ -631,7 +636,10 @@ JudgeEvent(tr, T, ev) ==
           [] ev.op \in {"log", "condense"} -> JudgeHistApi(tr, T, ev)
           [] ev.op = "external" -> {}
           [] ev.op = "rawemit" -> {}
-          [] ev.op = "setconfig" -> {Cl("C01.config", TRUE, ev.out = "ok" /\ ev.recs = <<>> /\ ev.post.vol = vol /\ ev.post.hn = hn)}
+          \* assigning public attributes (worklist configuration, labware limits): whether the assignment is possible is
+          \* not part of any property; if it is, nothing is pipetted or logged by it
+          [] ev.op \in {"setconfig", "setlimits"} ->
+               {Cl("C01.config", ev.out = "ok", ev.recs = <<>> /\ ev.post.vol = vol /\ ev.post.hn = hn)}
           [] OTHER -> {Cl("machinery.unknown_op", TRUE, FALSE)})
   \cup (IF tr.pair THEN JudgePair(tr, ev) ELSE {})
   \cup (IF tr.flags.fullhist THEN JudgeFullHist(tr, T, ev) ELSE {})
@@ -642,7 +650,7 @@ InitOf(t) == LET tr == Traces[t] IN
    hn |-> [k \in 1..NLw(tr) |-> tr.lw[k].init.hn]]
 
 Init == /\ tid = 0 /\ l = 0 /\ vol = <<>> /\ comp = <<>> /\ hn = <<>> /\ wl = <<>> /\ live = TRUE /\ cok = TRUE /\ robv = <<>>
-        /\ cfg = [maxv |-> 0, maxc |-> 0, autosplit |-> TRUE]
+        /\ cfg = [maxv |-> 0, maxc |-> 0, autosplit |-> TRUE, lim |-> <<>>]
         /\ InitRegisters
 
 \* first step of a trace: judge the constructor observations, load the initial state
@@ -664,7 +672,10 @@ Step ==
      /\ live' = (live /\ ev.out = "ok" /\ ~Untracked(ev))
      /\ cok' = (cok /\ ev.cs)
      /\ cfg' = IF ev.op = "setconfig" /\ ev.out = "ok"
-               THEN [maxv |-> ev.a.maxv, maxc |-> ev.a.maxc, autosplit |-> ev.a.autosplit] ELSE cfg
+               THEN [cfg EXCEPT !.maxv = ev.a.maxv, !.maxc = ev.a.maxc, !.autosplit = ev.a.autosplit]
+               ELSE IF ev.op = "setlimits" /\ ev.out = "ok"
+               THEN [cfg EXCEPT !.lim[ev.a.lw] = <<ev.a.minv, ev.a.maxv>>]
+               ELSE cfg
      /\ robv' = IF tr.flags.robot /\ live /\ ev.op \in TrackedOps
                 THEN LET rb == Run(T, robv, EmptyComp(tr), ReplayRecs(T, ev)) IN IF rb.err = "" THEN rb.vol ELSE robv
                 ELSE ev.post.vol     \* direct labware operations change the physical contents outside any worklist
